@@ -289,6 +289,19 @@ def register(reg, prop="C24"):
     G["expected_count"] = expected_count
     G["collected"] = g_collected
 
+    def leakage_coupling(I, nm, dim):
+        """region of known finding F12: some effective-noise operator has a non-zero entry that
+        couples a qubit level (index 0/1) to the leakage level (index 2)"""
+        if dim < 3:
+            return False
+        out = []
+        for op in nm.fields["eff_noise_opers"]:
+            e = entries(op)
+            for (i, j) in ((0, 2), (1, 2), (2, 0), (2, 1)):
+                out.append(ops.b_not(ops.b_and(ops.equal(e[i][j].re, 0), ops.equal(e[i][j].im, 0))))
+        return ops.b_or(*out) if out else False
+    G["leakage_coupling"] = leakage_coupling
+
     raises = {"NotImplementedError": "noise_type == 'dephasing' and noise_model.hyperfine_dephasing_rate != 0",
               "ValueError": "noise_type not in KNOWN_TYPES or (noise_type == 'eff_noise' and "
                             "not all(op.shape == (dim, dim) for op in noise_model.eff_noise_opers))",
